@@ -1145,4 +1145,30 @@ def resolve_terms(prog, t, depth=3, _memo=None, assumptions=()):
     return out
 
 
+def resolve_head(prog, t, assumptions=(), rounds=2):
+    """inline only the outermost call of t (a local pure helper), leaving its arguments as written:
+    `proto_coin(Coin::new(compute(..), d))` -> ProtoCoin{denom: d, amount: to_string(compute(..))}"""
+    from .mir import intern
+    for _ in range(rounds):
+        head = t
+        wrap = []
+        while head[0] in ("payload", "trybranch"):
+            wrap.append(head)
+            head = head[1]
+        if head[0] != "call":
+            break
+        cb = _callee_body(prog, head)
+        if cb is None or not _is_pure_small(prog, cb):
+            break
+        c = Ctx(cb, params={i + 1: a for i, a in enumerate(head[2])}, assumptions=assumptions).settle()
+        rt = c.T.return_term()
+        if contains(rt, lambda s: s[0] in ("cycle", "undef")):
+            break
+        rt = resolve_terms(prog, rt, 0, None, assumptions)
+        for w in reversed(wrap):
+            rt = ok_payload(rt, w[2]) if w[0] == "payload" else rt
+        t = intern(rt)
+    return t
+
+
 _UNWRAP_OR = {"std::option::Option::unwrap_or", "std::option::Option::unwrap_or_else", "std::option::Option::unwrap_or_default", "std::result::Result::unwrap_or"}
